@@ -292,6 +292,18 @@ def generate(workdir='/verif/work'):
     pcur = panicsmod.scan()
     pbase = json.load(open(os.path.join(os.path.dirname(os.path.abspath(__file__)), 'panic_baseline.json')))['sites']
     panic_growth = panicsmod.compare(pcur, pbase)
+    # productions reachable from the preprocessor's entry (the only part of the grammar the pp checks depend on)
+    def calls_of(e, acc):
+        if isinstance(e, tuple):
+            if len(e) >= 2 and e[0] == 'call' and isinstance(e[1], str): acc.add(e[1])
+            for x in e: calls_of(x, acc)
+        elif isinstance(e, list):
+            for x in e: calls_of(x, acc)
+    pp_reach = set(); todo = ['preprocessor_text']
+    while todo:
+        n = todo.pop()
+        if n in pp_reach or n not in prods: continue
+        pp_reach.add(n); acc = set(); calls_of(prods[n]['body'], acc); todo.extend(acc - pp_reach)
     # memo-relevant attributes of every production: (number of #[packrat_parser], #[recursive_parser]) against the committed inventory
     memo_attrs = {n: [int(bool(prods[n]['packrat'])) + int(bool(prods[n].get('packrat2'))), int(bool(prods[n]['recursive']))] for n in names}
     mb_path = os.path.join(os.path.dirname(os.path.abspath(__file__)), 'memo_baseline.json')
@@ -331,7 +343,7 @@ def generate(workdir='/verif/work'):
         'productions': len(names), 'opaque': tr.opaque, 'combinators': sorted(tr.comb_templates),
         'packrat': sum(1 for n in names if prods[n]['packrat']), 'packrat_twice': sum(1 for n in names if prods[n].get('packrat2')), 'recursive': sum(1 for n in names if prods[n]['recursive']),
         'kinds': len(tr.kinds), 'keyword_tables': {v: len(t) for v, t in zip(vers, tbls)}, 'kw_default': dflt,
-        'kw_problems': kw_problems, 'entry_problems': eproblems, 'statics': [list(x) for x in sitems], 'clears': sclears, 'panic_growth': panic_growth, 'memo_attrs': memo_attrs, 'memo_attr_changes': memo_changes, 'panic_sites': sum(sum(v.values()) for v in pcur.values()), 'conv_rows': len(rows), 'conv_opaque': conv_opaque,
+        'kw_problems': kw_problems, 'entry_problems': eproblems, 'statics': [list(x) for x in sitems], 'clears': sclears, 'panic_growth': panic_growth, 'pp_reachable': sorted(pp_reach), 'memo_attrs': memo_attrs, 'memo_attr_changes': memo_changes, 'panic_sites': sum(sum(v.values()) for v in pcur.values()), 'conv_rows': len(rows), 'conv_opaque': conv_opaque,
         'productive_marks': len(mlist), 'unmarked': sorted(n for n in names if n not in marks),
         'corpus': cn, 'test_macros': ctotal, 'changed_modules': changed,
         'names': names, 'kind_names': ['Locate'] + [k[0] for k in tr.kinds],
